@@ -638,8 +638,8 @@ func C18(run *mon.Run) {
 	run.Assumptions = []string{"interleavings are those the Go scheduler produced; absence of a bad history is not a proof", "a duplicate signer is reported as duplicatedSignerError also when enough shares were already collected ((true, nil) is documented for enough shares AND no error occurred)"}
 	// both legs run in child processes: a missing lock shows as a process-fatal
 	// "concurrent map writes" in the plain build and as race reports in the -race build
-	run.RunChild(os.Getenv("VERIF_BIN"), "c18core", "default", 40*time.Minute)
-	raceChild(run, "c18core", 40*time.Minute, "VERIF_C18_SCALE=0.25")
+	run.RunChild(os.Getenv("VERIF_BIN"), "c18core", "default", 120*time.Minute)
+	raceChild(run, "c18core", 180*time.Minute, "VERIF_C18_SCALE=0.25")
 	run.Require(run.Counter("default.histories") > 0, "default build observed no history")
 	run.Require(run.Counter("race.histories") > 0, "race build observed no history")
 }
